@@ -233,7 +233,7 @@ fn canonical_verdict(cfg: &ExchCfg) -> Result<Option<String>, String> {
     };
     let mut sr = f.proceed();
     let mut buf = vec![0u8; 8192];
-    sr.write(&mut buf).map_err(|e| format!("head: {:?}", e))?;
+    crate::driver::write_whole_head(&mut sr).map_err(|e| format!("head: {}", e))?;
     let mut cur = AnyFlow::SendRequest(sr).proceed()?.ok_or("cannot leave SendRequest")?;
     let stream = &cfg.stream;
     let mut off = 0usize;
